@@ -88,7 +88,7 @@ def q0End : Bytes → Bool
 
 /-- parameter text (between ';' and the next ';' / ',' / end) is a zero weight -/
 def paramIsQ0 (p : Bytes) : Bool :=
-  match p.dropWhile (· = sp) with
+  match p.dropWhile (fun b => b = sp || b = ht) with
   | q :: e :: z :: rest =>
     (q = 113 || q = 81) && e = 61 && z = 48 &&
       (match rest with
